@@ -71,7 +71,30 @@ func c07Burst(c *Ctx, cf Cfg, g, procs int, round int) {
 	c.Count("bursts", fmt.Sprintf("%s/%d/%d/%d", cf.Name(), g, procs, round), g >= 2)
 }
 
+// documents whose parsing goes through rarely used buffers: labels, titles and raw HTML spanning
+// lines, each with its own words (a value mixed up between goroutines changes the output); plus
+// blocks of the context x content matrix
+func c07MoreDocs(r *RNG) []string {
+	var out []string
+	for k := 0; k < 6; k++ {
+		w := fmt.Sprintf("w%d", k)
+		var sb strings.Builder
+		for j := 0; j < 12; j++ {
+			fmt.Fprintf(&sb, "[text %d][%s label\n%d] and [%s short\n%d][] and [%s cut\n%d] ![img %d][%s label\n%d] [t](/u%d \"%s title\nline %d\") <a href=\"%s\"\n title=\"%d\">x</a>\n\n", j, w, j, w, j, w, j, j, w, j, j, w, j, w, j)
+		}
+		for j := 0; j < 12; j++ {
+			fmt.Fprintf(&sb, "[%s label %d]: /dest/%s/%d \"%s\ntitle %d\"\n[%s short %d]: /short/%s/%d\n[%s cut %d]: <%s/cut/%d> (paren\n%d)\n", w, j, w, j, w, j, w, j, w, j, w, j, w, j, j)
+		}
+		out = append(out, sb.String())
+	}
+	for k := 0; k < 24; k++ {
+		out = append(out, string(matrixPair(r))+string(matrixPair(r)))
+	}
+	return out
+}
+
 func runC07(c *Ctx) {
+	c07Docs = append(c07Docs, c07MoreDocs(c.R)...)
 	c.Rep.Rule = "a case is (configuration, goroutine count, GOMAXPROCS, round): G goroutines use one fresh instance at once (Convert, Parse+Render) on documents with entities, attributes, tables, footnotes; every output must equal the sequential one and the race detector must stay silent; distinct by hash; non-trivial = at least 2 goroutines"
 	if os.Getenv("GMH_C07_CHILD") == "" {
 		// everything runs in fresh child processes (the entity map's Once is process-global, and
